@@ -51,7 +51,7 @@ def floors(tier):
             "end=close": 300, "end=timeout": 300, "end=oserror": 300, "end=reset": 300, "end=aborted": 300, "all-compositions": 1000,
             "bufsize=1": 100, "bufsize=4096": 100, "session>64KiB": 12, "quiet-period": 200,
             "reader-sole-owner-of-socket": 300, "quiet-period:non-blocking-socket": 50,
-            "delivery-ends-at-frame-end": 100, "closed-by-application": 50, "duplex": 300, "sock=tls-like": 30, "sock=datagram": 30, "writes-fail": 100, "blocking": 100}
+            "delivery-ends-at-frame-end": 100, "closed-by-application": 50, "duplex": 300, "sock=tls-like": 30, "sock=datagram": 30, "writes-fail": 50, "blocking": 100}
 
 
 def plan(tier, seed):
